@@ -142,6 +142,9 @@ def run(ctx):
         ctx.ob(3, "K2", "an operator of a pipeline that already has MAX_FAILURES failed containers is never assigned again", ok, ma, c,
                detail=f"facts at the call: {sorted(norm.show(x) for x in fs)}")
     us = helpers.get("update_state")
+    if us is None and "update_state" in f.mod.funcs:
+        # the function exists but the scheduler no longer calls it: failures are not counted, new work is not queued
+        ctx.count_min("calls of update_state in the overbook scheduler", 0, 1)
     ctx.need(us is not None, "overbook.update_state not found")
     ctx.touch(us)
     gu = cfg_of(us, subst_env=False)
